@@ -31,7 +31,7 @@ func (eng) Rule() string {
 		"is reported and (a) each mutual-Remove pair and Require edge is explored exhaustively inside its cone of influence (backward " +
 		"closure over Add/Remove/Require edges, plus a synthetic Multi state standing for unrelated changes) and (b) PRNG random walks " +
 		"on the full machine check the invariants on every visited set and validate the cone reduction (projected set must be reachable " +
-		"in the cone). Evaluation = one explored mutation; distinct non-trivial = distinct (schema, active set) reached."
+		"in the cone); Require closure is judged by the parsed schema and by the exported one. Evaluation = one explored mutation; distinct non-trivial = distinct (schema, active set) reached."
 }
 func (eng) Assumptions() []string {
 	return []string{
